@@ -31,7 +31,7 @@ Tx(era, pl, ic, iq, oc, oq, fee, mint, wits, reqs, size, reds) == [
     nColl |-> IF pl THEN 1 ELSE 0, collMissing |-> 0, coll |-> IF pl THEN <<In(3, 0)>> ELSE <<>>,
     collReturn |-> [has |-> FALSE, coin |-> Zero, assets |-> <<>>],
     totalColl |-> [has |-> pl, v |-> B(IF pl THEN 3 ELSE 0)],
-    nRef |-> 0, refMissing |-> 0,
+    nRef |-> 0, refMissing |-> 0, withdrawals |-> <<>>,
     needScripts |-> IF pl THEN <<"s1">> ELSE <<>>,
     witScripts |-> (IF pl THEN <<"s1">> ELSE <<>>) \o (IF mint = 0 THEN <<>> ELSE <<"pA">>),
     refScripts |-> <<>>,
